@@ -187,8 +187,8 @@ func hBlockedGoroutines(fr *frame, a []value) value {
 // deepEqTerm is reflect.DeepEqual over interpreter values (interface operands).
 func deepEqTerm(fr *frame, x, y value, depth int) *sym.Term {
 	ctx := fr.i.st.ctx
-	if depth > 12 {
-		fr.i.st.unsupported("reflect.DeepEqual: depth > 12")
+	if depth > 48 {
+		fr.i.st.unsupported("reflect.DeepEqual: depth > 48")
 	}
 	xi, xok := x.(iface)
 	yi, yok := y.(iface)
